@@ -1,12 +1,12 @@
-\* case generator (model checking): every well-formed tree with exactly 5 nodes, all kinds, fanouts {1,2} ({1,3} on Compute)
+\* case generator (model checking): every well-formed tree with 1..4 nodes, all kinds, fanouts {1,2} ({1,3} on Compute)
 CONSTANTS
-  MaxN = 5
+  MaxN = 4
   MaxDepth = 4
   LeafKinds = {"Memory", "Toll", "Container", "Compute"}
   BranchKinds = {"Fork", "Hierarchical"}
   Fanouts = {1, 2}
   ComputeFanouts = {1, 3}
-  MinEmit = 5
+  MinEmit = 1
   AppendComputes = TRUE
   CountOwn = FALSE
 INIT Init
